@@ -244,6 +244,11 @@ inductive Op where
   | enq (ps : List Proposal)                 -- ProposalQueue.Enqueue
   | deq (t n : Nat) (order : List String)    -- ProposalQueue.Dequeue with the map iteration order
   | outcome (surfaced : List (List Proposal)) -- pre-build hooks: remove-from-metadata, then add-to-proposalq
+  | tick (t n : Nat) (order : List String) (ok : Bool)
+    -- one tick of a final flow (`coordinatedProposalsTick.Value` + observer): `Dequeue(t, n)`, then
+    -- `BuildPayloads`; `ok` = the payload builder (an external dependency) returned no error.
+    -- On an error `Value` returns it and the observer hands nothing on; the records stay dequeued.
+    -- The output of the operation is what reaches the runner of the finalisation flow.
 deriving DecidableEq, Repr
 
 structure St where
@@ -258,6 +263,7 @@ def St.init (now : Nat) : St := { ms := MStore.empty, q := [], now := now }
 def stepOut (tg : String → Nat) (st : St) : Op → Option (List Proposal)
   | .view t => some (st.ms.viewProposals t st.now).1
   | .deq t n order => some (dequeue tg t n st.now order st.q).1
+  | .tick t n order ok => some (if ok then (dequeue tg t n st.now order st.q).1 else [])
   | _ => none
 
 def step (tg : String → Nat) (st : St) : Op → St
@@ -268,6 +274,7 @@ def step (tg : String → Nat) (st : St) : Op → St
   | .enq ps => { st with q := enqueue st.now ps st.q }
   | .deq t n order => { st with q := (dequeue tg t n st.now order st.q).2 }
   | .outcome sf => { st with ms := removeFromMetadataHook tg sf st.ms, q := addToProposalQHook st.now sf st.q }
+  | .tick t n order _ => { st with q := (dequeue tg t n st.now order st.q).2 }
 
 /-- outputs of a history, one entry per operation -/
 def run (tg : String → Nat) : List Op → St → List (Option (List Proposal))
@@ -301,6 +308,7 @@ def deqEvents (tg : String → Nat) (t n now : Nat) (order : List String) (q : Q
 
 def opEvents (tg : String → Nat) (st : St) : Op → List Ev
   | .deq t n order => deqEvents tg t n st.now order st.q
+  | .tick t n order ok => if ok then deqEvents tg t n st.now order st.q else []
   | _ => []
 
 /-- every hand-out of a history, in order -/
